@@ -160,7 +160,7 @@ func checkC07(w *World, r *Report) {
 	if m == nil {
 		return
 	}
-	r.rule("C07.poll", "every loop reachable from the evaluator or a registered builtin is a counted/range loop over data, or passes on every lap a context poll (non-blocking select on <-ctx.Done(), or ctx.Err(), on a context derived from the function's own) or a call that re-enters the evaluator (which polls at its loop head)")
+	r.rule("C07.poll", "every loop reachable from the evaluator or a registered builtin is a counted/range loop over data, or passes on every lap a context poll (non-blocking select on <-ctx.Done(), or ctx.Err(), on a context derived from the function's own) or a call that is certain to re-enter the evaluator (EVAL itself, or Apply of a value that can only be a lisp function; the evaluator polls at its loop head)")
 	r.rule("C07.block", "every potentially blocking operation reachable from evaluation (blocking select, channel receive, time.Sleep, WaitGroup/Cond wait) is a select that also waits on <-ctx.Done() of the function's own context; sends go to the future's outcome channels whose capacity bounds them (C10.redeposit)")
 	r.rule("C07.derive", "every context passed to EVAL, eval_ast, the body helper, macroexpand, Apply, a Func.Fn or a goroutine body is the function's own context parameter or a context.With* child of it, never context.Background()/TODO(); the binder places the adapter's own context in slot 0")
 	r.rule("C07.handler", "the try body runs under the outer context or one context.WithTimeout/WithDeadline child of it, while the catch handler and the finally body receive the outer context itself (they can run after a body timeout but are polled under the caller's deadline)")
@@ -177,9 +177,27 @@ func checkC07(w *World, r *Report) {
 		}
 	}
 	p.solve(cands)
+	// a call that is certain to poll the context: EVAL itself (it polls at the top of its loop before anything
+	// else), or types.Apply of a value that can only be a lisp function (Apply hands those to EVAL; a host
+	// function given to Apply need not poll at all)
+	applyFn := w.Fn("types", "Apply")
 	evalReach := func(ci ssa.CallInstruction) bool {
-		ok, _ := w.reachesEval(ci)
-		return ok
+		sc := ci.Common().StaticCallee()
+		if sc == nil {
+			return false
+		}
+		if sc == m.EVAL {
+			return true
+		}
+		if sc == applyFn && len(ci.Common().Args) >= 2 {
+			ts := e.typeSetOf(ci.Common().Args[1], ci.Block(), map[ssa.Value]bool{}, 0)
+			if !ts.unknown && !ts.hasNil && len(ts.ts) == 1 {
+				if _, name, ok := w.namedStruct(ts.ts[0]); ok && name == "MalFunc" {
+					return true
+				}
+			}
+		}
+		return false
 	}
 	nl := 0
 	for _, fn := range w.Funcs {
@@ -302,56 +320,7 @@ func checkC07(w *World, r *Report) {
 	r.floor("C07.block", "blocking operations reachable from evaluation", nb, 4)
 
 	// derive
-	nd := 0
-	extSig := w.ByPath[modPath+"/types"].Types.Scope().Lookup("ExternalCall").Type().Underlying().(*types.Signature)
-	for _, fn := range w.Funcs {
-		if isTestFunc(w, fn) || !libraryPkg(fnPkgPath(fn)) {
-			continue
-		}
-		for _, b := range fn.Blocks {
-			for _, in := range b.Instrs {
-				ci, ok := in.(ssa.CallInstruction)
-				if !ok {
-					continue
-				}
-				c := ci.Common()
-				var ctxArg ssa.Value
-				what := ""
-				if sc := c.StaticCallee(); sc != nil {
-					switch sc {
-					case m.EVAL, m.evalAst, m.doFn, m.macroexpand, m.apply:
-						ctxArg, what = c.Args[0], sc.Name()
-					}
-					if sc.Name() == "NewFuture" || sc.Name() == "REPL" || sc.Name() == "_args_ctx" {
-						if len(c.Args) > 0 && isContext(c.Args[0].Type()) {
-							ctxArg, what = c.Args[0], sc.Name()
-						}
-					}
-				} else if !c.IsInvoke() {
-					if sig, ok := c.Value.Type().Underlying().(*types.Signature); ok && (sameParamsResults(sig, extSig) || isEvalSig(sig)) && len(c.Args) > 0 && isContext(c.Args[0].Type()) {
-						ctxArg, what = c.Args[0], "function value "+describeVal(e, c.Value, 0)
-					}
-				}
-				if ctxArg == nil {
-					continue
-				}
-				// only functions that have a context of their own can derive one
-				nd++
-				_, ok = ctxDerivation(e, ctxArg, map[ssa.Value]bool{})
-				construct := "context passed to " + what
-				switch {
-				case ok:
-					r.ok("C07.derive", fn, construct, in.Pos(), "the function's own context or a context.With* child of it")
-				case fnPkgPath(fn) == modPath+"/reader":
-					r.add("C07.derive", fn, construct, in.Pos(), "exempt", "Go constructors «…» build data at read time; no lisp code runs under this context")
-				case hasNoCtxParam(fn):
-					r.add("C07.derive", fn, construct, in.Pos(), "exempt", "library loader without a context of its own (runs the embedded header once at load time)")
-				default:
-					r.bad("C07.derive", fn, construct, in.Pos(), "the context handed on is not derived from the caller's context: cancelling the caller does not reach this evaluation")
-				}
-			}
-		}
-	}
+	nd := ctxDeriveRule(w, r, e, m, "C07.derive")
 	r.floor("C07.derive", "contexts handed to evaluating calls", nd, 15)
 	// the binder puts the adapter's ctx in slot 0
 	if ac := w.Fn("lib/call", "_args_ctx"); ac != nil {
@@ -457,4 +426,60 @@ func hasNoCtxParam(fn *ssa.Function) bool {
 		}
 	}
 	return strings.HasPrefix(fnPkgPath(fn), modPath)
+}
+
+
+// ctxDeriveRule: every context handed to an evaluating call is derived from the caller's own context.
+func ctxDeriveRule(w *World, r *Report, e *Engine, m *evalModel, rule string) int {
+	nd := 0
+	extSig := w.ByPath[modPath+"/types"].Types.Scope().Lookup("ExternalCall").Type().Underlying().(*types.Signature)
+	for _, fn := range w.Funcs {
+		if isTestFunc(w, fn) || !libraryPkg(fnPkgPath(fn)) {
+			continue
+		}
+		for _, b := range fn.Blocks {
+			for _, in := range b.Instrs {
+				ci, ok := in.(ssa.CallInstruction)
+				if !ok {
+					continue
+				}
+				c := ci.Common()
+				var ctxArg ssa.Value
+				what := ""
+				if sc := c.StaticCallee(); sc != nil {
+					switch sc {
+					case m.EVAL, m.evalAst, m.doFn, m.macroexpand, m.apply:
+						ctxArg, what = c.Args[0], sc.Name()
+					}
+					if sc.Name() == "NewFuture" || sc.Name() == "REPL" || sc.Name() == "_args_ctx" {
+						if len(c.Args) > 0 && isContext(c.Args[0].Type()) {
+							ctxArg, what = c.Args[0], sc.Name()
+						}
+					}
+				} else if !c.IsInvoke() {
+					if sig, ok := c.Value.Type().Underlying().(*types.Signature); ok && (sameParamsResults(sig, extSig) || isEvalSig(sig)) && len(c.Args) > 0 && isContext(c.Args[0].Type()) {
+						ctxArg, what = c.Args[0], "function value "+describeVal(e, c.Value, 0)
+					}
+				}
+				if ctxArg == nil {
+					continue
+				}
+				// only functions that have a context of their own can derive one
+				nd++
+				_, ok = ctxDerivation(e, ctxArg, map[ssa.Value]bool{})
+				construct := "context passed to " + what
+				switch {
+				case ok:
+					r.ok(rule, fn, construct, in.Pos(), "the function's own context or a context.With* child of it")
+				case fnPkgPath(fn) == modPath+"/reader":
+					r.add(rule, fn, construct, in.Pos(), "exempt", "Go constructors «…» build data at read time; no lisp code runs under this context")
+				case hasNoCtxParam(fn):
+					r.add(rule, fn, construct, in.Pos(), "exempt", "library loader without a context of its own (runs the embedded header once at load time)")
+				default:
+					r.bad(rule, fn, construct, in.Pos(), "the context handed on is not derived from the caller's context: cancelling the caller does not reach this evaluation")
+				}
+			}
+		}
+	}
+	return nd
 }
